@@ -637,6 +637,13 @@ impl<'tcx> Cx<'tcx> {
                 "sig_input_heads",
                 J::A(sig.inputs().iter().map(|t| self.ty_head(*t)).collect()),
             ));
+            // where-clauses (trait bounds) of the function, e.g. "P: std::convert::AsRef<std::path::Path>"
+            let preds = tcx.predicates_of(did).instantiate_identity(tcx);
+            let mut bounds: Vec<J> = Vec::new();
+            for p in preds.predicates.iter() {
+                bounds.push(J::S(with_no_trimmed_paths!(format!("{}", p.skip_norm_wip()))));
+            }
+            v.push(("bounds", J::A(bounds)));
             if let Some(im) = tcx.impl_of_assoc(did) {
                 let st = tcx.type_of(im).instantiate_identity().skip_norm_wip();
                 v.push(("impl_self", J::S(self.ty_s(st))));
